@@ -394,3 +394,14 @@ def run(ctx, rec):
 
 def replay(w, rec):
     rec.inconclusive.append("C12 histories replay by seed: VERIF_SEED=<seed> ./check C12 (history recorded in the witness)")
+
+
+# workloads added after the seventh round of seeded changes (DESIGN section 9): part of the rule of this check
+_RULE_ADDENDUM = 'vector parameters created from integer-typed data and updated as ints / floats'
+_info_base = info
+
+
+def info(tier):  # noqa: F811
+    d = _info_base(tier)
+    d["rule"] = d["rule"] + "; " + _RULE_ADDENDUM
+    return d
